@@ -70,6 +70,20 @@ theorem c20_cadence_lower (trig half shift off now ts : Int)
     (hc : half + shift ≤ trig) (hrot : now - off > trig) (hacc : now - half ≤ ts) :
     off + shift ≤ ts := by omega
 
+/-- What the executable test `cadenceSafe` (evaluated by the driver on the constants of the production
+build) buys: both cadence statements. -/
+theorem c20_cadence_safe (trig per half win shift off now ts : Int)
+    (h : cadenceSafe trig per half win shift = true) :
+    (now - off ≤ trig + per → ts ≤ now + half → ts < off + win) ∧
+    (now - off > trig → now - half ≤ ts → off + shift ≤ ts) := by
+  unfold cadenceSafe at h
+  have h' := of_decide_eq_true h
+  constructor <;> intros <;> omega
+
+/-- The production constants pass, a 36-hour check period does not. -/
+example : cadenceSafe 3200 (slotsOfNs 3600000000000) 432 4032 2016 = true ∧
+    cadenceSafe 3200 (slotsOfNs (36 * 3600000000000)) 432 4032 2016 = false := by decide
+
 /-- 1700352000 is Sunday 2023-11-19 00:00:00 UTC. -/
 theorem c20_genesis_date : civil 1700352000 = (2023, 11, 19, 0, 0, 0, 0) := by decide
 
